@@ -111,9 +111,10 @@ byte_buffer_rewind(ByteBuffer *b)
         return 0;
     }
 
-    memmove(b->data,
-            b->data + b->offset,
-            b->used - b->offset);
+    const size_t rest = b->used - b->offset;
+    memmove(b->data, b->data + b->offset, rest);
+    b->used = rest;
+    b->offset = 0u;
 
     return 0;
 }
